@@ -129,8 +129,9 @@ Definition check_last (k : chain * obs) : N :=
 From LE Require Import Sync.Converge.
 
 (* observation: chain after, peer banned, Sync returned an error, temp blocks (height, code) after, a block at or
-   below the finalized height changed, the whole database equals the one before *)
-Definition sync_obs : Type := list N * bool * bool * list (N * N) * bool * bool.
+   below the finalized height changed, the whole database equals the one before, penalty scores added during the sync by
+   our connection gater for the peer and by the peer's for us *)
+Definition sync_obs : Type := list N * bool * bool * list (N * N) * bool * bool * N * N.
 (* ground truth of the scenario: the peers follow the protocol, the best peer's tip has priority over ours, height of
    the last block shared with it, its chain, the sender of the block is the best peer, the block's generator is a current validator *)
 Definition sync_truth : Type := bool * bool * N * list N * bool * bool.
@@ -157,7 +158,7 @@ Definition oN_eqb (a b : option N) : bool :=
 Definition check_sync (k : sync_case) : N :=
   let '(own_h, block_h, nv, gap, before, temp0, fin, common, delivered, e, links, tr, o) := k in
   let '(honest, better, fork_h, peerchain, sender_is_best, gen_val) := tr in
-  let '(after, banned_o, err_o, temp_o, lowdel, dbeq) := o in
+  let '(after, banned_o, err_o, temp_o, lowdel, dbeq, pen_own, pen_peer) := o in
   let n0 := {| chain := before; temp := map (fun kv => (N.to_nat (fst kv), snd kv)) temp0; finalized := N.to_nat fin; banned := false |} in
   let en := match e with 0 => EndOk | 1 => EndErr | _ => EndInvalid end in
   let r2 := 2 * nv in
@@ -202,4 +203,7 @@ Definition check_sync (k : sync_case) : N :=
     if close then sender_is_best && (own_h <=? fork_h + r2 - 2) && (block_h <=? fork_h + r2)
     else (3 * Z.of_N nv <? gap)%Z in
   let spec2 := negb (honest && better && (fin <=? fork_h) && applies) || (list_eqb after peerchain && negb err_o) in
-  code agree (spec1 && spec2 && keep_final).
+  (* clause 3: an honest peer serving valid blocks within the protocol's own request pace accrues no penalty, and neither
+     does the syncing node at the peer (stated for syncs that complete: fast sync bans a peer on a fork deeper than two rounds by design) *)
+  let spec3 := negb (honest && negb err_o) || ((pen_own =? 0) && (pen_peer =? 0)) in
+  code agree (spec1 && spec2 && spec3 && keep_final).
